@@ -237,6 +237,53 @@ theorem flatOf_step {β : Type} (sel : List Item → List β) (f : Nat) (files :
     flatOf sel (f + 1) files n = (includesOf items).flatMap (fun i => flatOf sel f files i) ++ sel items := by
   simp only [flatOf, hl]
 
+/-- **include_twice_contributes_twice** — every `include_file` line contributes its file again: a file
+    that lists the same file `g` twice gets `g`'s (flattened) statements twice, in order, before its
+    own.  Nothing is remembered about files already read; writing the declarations inline would also
+    produce them once per inclusion. -/
+theorem include_twice_contributes_twice (f : Nat) (files : AList (List Item)) (ctx : PCtx) (n g : String)
+    (items : List Item) (r : List RStmt × PCtx) (hl : files.lookup n = some items)
+    (hi : includesOf items = [g, g]) (h : parseFile (f + 1) files ctx n = .ok r) :
+    r.1 = flatOf stmtsOf f files g ++ flatOf stmtsOf f files g ++ stmtsOf items := by
+  rw [(parseFile_spec (f + 1) files ctx n r h).1, flatOf_step _ _ _ _ _ hl, hi]
+  simp [List.flatMap_cons, List.append_assoc]
+
+/-- **diamond_contributes_twice** — two included files `a`, `b` that both include a shared file `s`:
+    the statements of `s` appear twice, once in front of each branch (depth first). -/
+theorem diamond_contributes_twice (f : Nat) (files : AList (List Item)) (ctx : PCtx) (n a b s : String)
+    (items ia ib : List Item) (r : List RStmt × PCtx)
+    (hl : files.lookup n = some items) (hi : includesOf items = [a, b])
+    (hla : files.lookup a = some ia) (hia : includesOf ia = [s])
+    (hlb : files.lookup b = some ib) (hib : includesOf ib = [s])
+    (h : parseFile (f + 2) files ctx n = .ok r) :
+    r.1 = flatOf stmtsOf f files s ++ stmtsOf ia ++ (flatOf stmtsOf f files s ++ stmtsOf ib) ++ stmtsOf items := by
+  rw [(parseFile_spec (f + 2) files ctx n r h).1, flatOf_step _ _ _ _ _ hl, hi]
+  simp only [List.flatMap_cons, List.flatMap_nil, List.append_nil]
+  rw [flatOf_step _ _ _ _ _ hla, flatOf_step _ _ _ _ _ hlb, hia, hib]
+  simp [List.flatMap_cons, List.append_assoc]
+
+/-- the same for the macro table and the options: a shared file that holds only macros is harmless —
+    its definitions are assigned again (`dictUpdate` with equal values), the statements are unaffected -/
+theorem shared_macro_file_harmless (f : Nat) (files : AList (List Item)) (g : String) (items : List Item)
+    (hl : files.lookup g = some items) (hs : stmtsOf items = []) (hi : includesOf items = []) :
+    flatOf stmtsOf (f + 1) files g = [] := by
+  rw [flatOf_step _ _ _ _ _ hl, hi, hs]
+  rfl
+
+example :
+    (parseRecipe 6 [("main", [.includeFile "a", .includeFile "a", .stmt (.obj (.mk "M" "" [] [] []))]),
+                    ("a", [.stmt (.obj (.mk "A" "" [] [] []))])] "main").map
+        (fun p => p.statements.map (fun s => match s with | .obj t => t.table | .var n _ => n))
+      = .ok ["A", "A", "M"] := by decide
+
+example :
+    (parseRecipe 6 [("main", [.includeFile "a", .includeFile "b"]),
+                    ("a", [.includeFile "s", .stmt (.obj (.mk "A" "" [] [] []))]),
+                    ("b", [.stmt (.obj (.mk "B" "" [] [] [])), .includeFile "s"]),
+                    ("s", [.stmt (.obj (.mk "P" "" [] [] []))])] "main").map
+        (fun p => p.statements.map (fun s => match s with | .obj t => t.table | .var n _ => n))
+      = .ok ["P", "A", "P", "B"] := by decide
+
 /-- **include_position_independent** — only the order *within* each category of declarations
     (include lines, macros, options, versions, statements) matters, not where they stand in a file -/
 theorem include_position_independent (fs gs : AList (List Item)) (h : SameFiles fs gs) (f : Nat)
